@@ -215,6 +215,7 @@ theorem sprintName_present (ls : List Bytes) : sprintName (presentOf ls) = prese
 def kindEq : TStep → TStep → Bool
   | .uint a, .uint b => a == b
   | .uint a, .uintAlg => a == 8
+  | .uint a, .uintTtl _ => a == 32
   | .name, .name => true
   | _, _ => false
 
@@ -233,6 +234,7 @@ def matchPlans : List TStep → List TStep → Bool
 def FieldWF : TStep → TVal → Prop
   | .uint bits, .n v => v < 2 ^ bits
   | .uintAlg, .n v => v < 2 ^ 8
+  | .uintTtl _, .n v => v < 2 ^ 32
   | .name, .s t => ∃ ls, WireNameOK ls ∧ t = presentOf ls
   | _, _ => False
 
@@ -282,6 +284,14 @@ theorem field_word (p q : TStep) (v : TVal) (hk : kindEq p q = true) (hw : Field
     refine ⟨itoa n, fun vs => rfl, digits_word _ hd, ?_⟩
     intro t ts Q acc ht he
     simp only [parsePlan, headTok, ht, parseUintN_digits 8 (itoa n) hd (by rw [hv]; exact hw), hv, List.tail_cons]
+  case uint.uintTtl b1 strict =>
+    cases v <;> simp only [FieldWF] at hw
+    rename_i n
+    obtain ⟨hd, hv⟩ := itoa_spec n
+    refine ⟨itoa n, fun vs => rfl, digits_word _ hd, ?_⟩
+    intro t ts Q acc ht he
+    simp only [parsePlan, headTok, ht, parseUintN_digits 32 (itoa n) hd (by rw [hv]; exact hw), hv, he, Bool.false_eq_true,
+      ↓reduceIte, List.tail_cons]
   case name.name =>
     cases v <;> simp only [FieldWF] at hw
     obtain ⟨ls, hok, rfl⟩ := hw
